@@ -362,17 +362,25 @@ def _loop_shard(stats, shard, nshards, tier):
         if status == 'ok':
             stats.merge(res)
             continue
-        # the child died inside units[idx]: find the counter values that kill it, keep the Python verdicts
+        # the child died inside units[idx]: keep the Python verdicts and find the counter values that kill
+        # the C simulator (one child walks the 256 values; it is replaced each time it dies)
         i, unit, _ = units[idx]
         stats.counters['c_simulator_crashes'] += 1
         _rig_for(unit[0])           # built here so that the forked children inherit it
         st2, py = isolated(loop_unit, (i, unit, ('py',)))
         if st2 == 'ok':
             stats.merge(py)
-        for v in range(256):
-            st3, r3 = isolated(loop_violations, unit[0], v, unit[1], unit[2], unit[3], unit[4], ('c',))
+        for v, st3, r3 in stream_units([(unit, v) for v in range(256)], _c_only):
             if st3 != 'ok':
                 _record(stats, unit, v, 'c', 1, 'process killed by {} {} while running the C simulator'.format(st3, r3), i * 256 + v)
+            else:
+                for kind, accel, desc in r3:
+                    _record(stats, unit, v, kind, accel, desc, i * 256 + v)
+
+
+def _c_only(arg):
+    unit, v = arg
+    return loop_violations(unit[0], v, unit[1], unit[2], unit[3], unit[4], ('c',))[0]
 
 
 # --------------------------------------------------------------------------- DEC A loops
@@ -642,7 +650,7 @@ def tape_plan(tier):
     """[(tape name, bound description, iterator of option dicts)]"""
     if tier == 'quick':
         return [(t, 2) for t in ('k48', 'k48clear', 'turbo', 'k128')]
-    return [('k48', 8), ('turbo', 8), ('k48clear', 2), ('k128', 2)]
+    return [('turbo', 8), ('k48', 3), ('k48clear', 2), ('k128', 2)]
 
 
 def tape_configs(d):
@@ -791,10 +799,10 @@ def run(tier, seed):
                  len(ACCELERATORS), '{k*loop_time+e: k 0..3, e -1,0,1}, far; EAR phase = register bit, or tape polarity for the loops without one' if tier == 'quick' else
                  'every value -1..2*loop_time+1, {3*loop_time+e}, far; EAR register bit x tape polarity',
                  [t for t, d in tape_plan(tier)], 'deviations d <= 2 from the defaults' if tier == 'quick' else
-                 'full product on k48 and turbo, deviations d <= 2 on k48clear and k128'),
+                 'full product on turbo, deviations d <= 3 on k48, d <= 2 on k48clear and k128'),
         exhaustive=True,
         bound='loop level: complete product (finite); tape level: ' + ('option deviations d <= 2 on 4 tapes' if tier == 'quick' else
-                                                                         'full option product (1280 configurations) on 2 tapes, d <= 2 on 2 more'),
+                                                                         'full option product (1280 configurations) on the turbo tape, d <= 3 on k48, d <= 2 on k48clear and k128'),
         assumptions=[
             'loops are entered at their first instruction only, with the exit paths (wild-card bytes, RET targets) leading to the stop address - the phase real loaders are in',
             'every loop-level run has a horizon of {} T-states (LoadTracer timeout) and a 20 s watchdog'.format(HORIZON_T),
